@@ -53,6 +53,7 @@ def run(ck, progs):
         ck.guard("C15-a TABLE vocabularies", lambda: c15a(ck, prog))
         ck.guard("C15-b SIBLING operations", lambda: c15b(ck, prog))
         ck.guard("C15-c EXHAUSTIVE security", lambda: c15c(ck, prog))
+        ck.guard("C15-d PAIR route table", lambda: c15d(ck, prog))
     ck.config = None
 
 
@@ -270,3 +271,25 @@ def c15c(ck, prog):
     bl = [f for f in prog.fns.values() if f.name == "openapi_map_operation" and f.trait == "ohkami::fang::middleware::Fangs" and f.self_ty == "F"]
     ok = bool(bl) and any(re.search(r"fang::Fang::openapi_map_operation$", c.decl or "") for c in bl[0].calls())
     ck.ob(R, "blanket-forwards", ok, bl[0].loc(None) if bl else "", "" if ok else "the blanket Fangs impl does not forward openapi_map_operation to the fang", how="<F as Fang>::openapi_map_operation(self, op)")
+
+
+def c15d(ck, prog):
+    """The document is generated from `routes` (route -> method -> handler meta). Several registrations may name the
+    same route (different methods, a mount landing on an existing route), so every update of the table must extend an
+    existing entry, never replace it."""
+    R = "C15-d PAIR route table"
+    RT = r"^ohkami::router::base::Router$"
+    for nm, adder in (("register_handlers", r"TupleMap::<K, V>::insert$"), ("merge_another", r"TupleMap::<K, V>::append$")):
+        f = prog.method(RT, nm)
+        bodies = [f] + prog.descendants(f.key)
+        on_routes = lambda g, c: c.args and "routes" in decision.describe_deep(g, c.args[0], 4)
+        ent = [c for g in bodies for c in g.calls() if c.name == "entry" and "HashMap" in (c.callee or "") and on_routes(g, c)]
+        repl = [c for g in bodies for c in g.calls() if c.name in ("insert", "extend", "remove", "clear", "retain") and "HashMap" in (c.callee or "") and on_routes(g, c)]
+        mod = [c for g in bodies for c in g.calls() if c.name == "and_modify"]
+        ins = [c for g in bodies for c in g.calls() if c.name in ("or_insert_with", "or_insert", "or_default", "or_insert_with_key")]
+        ext = [c for g in bodies for c in g.calls_to(adder)]
+        ok = bool(ent) and not repl and len(mod) >= len(ent) and len(ins) >= len(ent) and bool(ext)
+        ck.ob(R, "%s:extends-existing-entry" % nm, ok, f.loc((repl or ent or [f.calls()[0]])[0].sp),
+              "" if ok else "%s updates the route table with %s: an entry that already exists for the route (another method registered earlier, a mount landing on it) is replaced, and the replaced operations vanish from the generated document although they are still served" % (
+                  nm, ", ".join(sorted({c.name for c in repl})) or "entry() without and_modify/or_insert"),
+              how="routes.entry(route).and_modify(|m| m.%s(..)).or_insert_with(..)" % adder.split("::")[-1].rstrip("$"))
